@@ -16,4 +16,4 @@ def run(ctx):
     ref = ("aslr-on", [], {}, [])
     variants = [("aslr-on-shifted-stack", [], {"VERIF_PAD": pad}, []),
                 ("aslr-off", [], {"VERIF_PAD": pad[: len(pad) // 3]}, ["setarch", "x86_64", "-R"])]
-    kernel_diff.run(ctx, variants, ref, 120, 2500, "C01: variants = ASLR on with a padded environment, ASLR off (setarch -R).")
+    kernel_diff.run(ctx, variants, ref, 120, 500, "C01: variants = ASLR on with a padded environment, ASLR off (setarch -R).")
